@@ -148,16 +148,24 @@ func e2eCLI(model map[string]interface{}) (bool, string) {
 		kind    string
 		withOut bool
 		prior   bool // the output path already holds an older, longer output
+		current bool // the output path already holds the very output of this input (a run before this one)
+		outDir  bool // -out names an existing DIRECTORY: everything succeeds up to the final rename, which fails
+		fullOut bool // standard output rejects every write (/dev/full)
 	}
 	var scenarios []scenario
 	for _, withOut := range []bool{false, true} {
-		scenarios = append(scenarios, scenario{kind, withOut, false}, scenario{kind, withOut, true})
+		scenarios = append(scenarios, scenario{kind: kind, withOut: withOut}, scenario{kind: kind, withOut: withOut, prior: true}, scenario{kind: kind, withOut: withOut, current: true})
+	}
+	// the replacement itself fails at its last step; standard output rejects the printed code
+	scenarios = append(scenarios, scenario{kind: kind, withOut: true, outDir: true})
+	if prints {
+		scenarios = append(scenarios, scenario{kind: kind, fullOut: true}, scenario{kind: kind, prior: true, fullOut: true})
 	}
 	// a run that fails LATE (the generated code does not format), over an absent and a present output
-	scenarios = append(scenarios, scenario{"latefail", false, false}, scenario{"latefail", false, true})
+	scenarios = append(scenarios, scenario{kind: "latefail"}, scenario{kind: "latefail", prior: true})
 	// a run whose input file does not exist (a failure that never passes through the logger)
 	if kind != "missing" {
-		scenarios = append(scenarios, scenario{"missing", false, false})
+		scenarios = append(scenarios, scenario{kind: "missing"})
 	}
 	for si, sc := range scenarios {
 		kind, withOut := sc.kind, sc.withOut
@@ -182,8 +190,14 @@ func e2eCLI(model map[string]interface{}) (bool, string) {
 			outName = "custom_out.go"
 			args = append(args, "-out", outName)
 		}
+		if sc.outDir {
+			os.MkdirAll(filepath.Join(dir, outName), 0755)
+		}
 		if sc.prior {
 			os.WriteFile(filepath.Join(dir, outName), []byte(string(refContent)+"\n// tail of an older, longer output\nfunc Stale() {}\n"), 0644)
+		}
+		if sc.current {
+			os.WriteFile(filepath.Join(dir, outName), refContent, 0644)
 		}
 		if dry {
 			args = append(args, "-dry")
@@ -202,6 +216,14 @@ func e2eCLI(model map[string]interface{}) (bool, string) {
 		var stdout, stderr strings.Builder
 		cmd.Stdout = &stdout
 		cmd.Stderr = &stderr
+		if sc.fullOut {
+			if full, err := os.OpenFile("/dev/full", os.O_WRONLY, 0); err == nil {
+				cmd.Stdout = full
+				defer full.Close()
+			} else {
+				continue
+			}
+		}
 		runErr := cmd.Run()
 		exit := 0
 		if runErr != nil {
@@ -211,10 +233,14 @@ func e2eCLI(model map[string]interface{}) (bool, string) {
 			}
 		}
 		after := snapshot(dir)
-		fmt.Fprintf(&log, "$ convergen %s   (input kind %s, older output present: %v) -> exit %d\n", strings.Join(args, " "), kind, sc.prior, exit)
+		fmt.Fprintf(&log, "$ convergen %s   (input kind %s, older output present: %v, current output present: %v, output path is a directory: %v, stdout full: %v) -> exit %d\n", strings.Join(args, " "), kind, sc.prior, sc.current, sc.outDir, sc.fullOut, exit)
 		wantExit := 0
-		if kind != "ok" {
+		if kind != "ok" || (sc.outDir && !dry) {
 			wantExit = 1
+		}
+		if sc.fullOut {
+			// whether a rejected print fails the run is not pinned; what a failed run leaves is (below)
+			wantExit = exit
 		}
 		if exit != wantExit {
 			dev("exit status %d, expected %d; stderr: %s", exit, wantExit, clip(stderr.String(), 300))
@@ -260,7 +286,7 @@ func e2eCLI(model map[string]interface{}) (bool, string) {
 				dev("-log given but %s does not exist", logName)
 			}
 		}
-		if exit == 0 {
+		if exit == 0 && !sc.fullOut {
 			if prints && stdout.String() != string(refContent) {
 				dev("-print: stdout differs from the generated code (stdout %d bytes, code %d bytes)", len(stdout.String()), len(refContent))
 			}
